@@ -159,15 +159,17 @@ def h_replay(a, inst):
     return True
 
 
+EXTRA_MODULES = ["harness.C22gt"]  # threads: a subscriber racing the producer (gate threads)
 ENCODED = ["reactivex/subject/replaysubject.py", "reactivex/observer/scheduledobserver.py", "reactivex/subject/subject.py",
            "reactivex/scheduler/virtualtimescheduler.py", "reactivex/disposable/serialdisposable.py"]
 BOUNDS = {"quick": "histories of 4 timed calls (the first one on_next) over {on_next, on_error, on_completed, subscribe A, subscribe B, unsubscribe A} with "
                    "symbolic gaps in [0,2] ticks; buffer_size in {None,0,1,2} x window in {None,1,2,3} (so age == window and "
-                   "buffer_size == 0 are inside the range)",
+                   "buffer_size == 0 are inside the range); threads (GT): a subscriber thread (subscribe, or subscribe and unsubscribe at once) racing a producer thread over 4 sequences, 2 ordered preemptions at instruction-level yield points of the subject modules",
           "thorough": "5 timed calls, any first call, all 16 configurations"}
-ASSUMES = ["Tick/Span time stub (window passed as int ticks); replay runs through the real ScheduledObserver on the virtual-time scheduler",
+ASSUMES = ["threads: gate-aware RLock shims; the late subscriber must receive one of the sequential outcomes (a prefix of one when it unsubscribes), the early subscriber everything, nothing may raise", "Tick/Span time stub (window passed as int ticks); replay runs through the real ScheduledObserver on the virtual-time scheduler",
            "'within the window' is read as age <= window", "notifications due in the very instant of an unsubscribe may be cut short (C03)"]
 MANIFEST = {
+    "engine": "XH+GT",
     "text": "Bounded symbolic model checking over timed call histories on the real ReplaySubject + ScheduledObserver + virtual-time "
             "scheduler: op codes and gaps are solver variables; each observer's (time, notification) log is compared with the "
             "retained-values reference computed from the statement.",
